@@ -174,7 +174,26 @@ def map_contracts():
 # ------------------------------------------------------------------ bounded stand-ins: bytes order, timestamps, durations, nesting
 def bounded(rep, tier, seed):
     rng = random.Random(seed)
-    bf = ev.base_functions
+
+    class _Raised:
+        """a relation that raises instead of answering: no truth value (counts as incoherent, never crashes the harness)"""
+        def __init__(self, ex):
+            self.ex = ex
+
+        def __bool__(self):
+            return False
+
+        def __repr__(self):
+            return f"raised {type(self.ex).__name__}: {self.ex}"
+
+    def _guard(f):
+        def g(a, b):
+            try:
+                return f(a, b)
+            except Exception as ex:
+                return _Raised(ex)
+        return g
+    bf = {k: _guard(v) for k, v in ev.base_functions.items() if k in ("_==_", "_!=_", "_<_", "_<=_", "_>_", "_>=_")}
     fails = []
     n = 0
     distinct = set()
@@ -188,9 +207,10 @@ def bounded(rep, tier, seed):
             ok = isinstance(eq, ct.BoolType) and isinstance(ne, ct.BoolType) and bool(eq) != bool(ne) and \
                 bool(eq) == bool(bf["_==_"](b, a)) and (a is not b or bool(eq))
             if ok and ordered:
-                lt, gt, le = bf["_<_"](a, b), bf["_>_"](a, b), bf["_<=_"](a, b)
-                ok = (bool(lt) + bool(eq) + bool(gt) == 1) and bool(lt) == bool(bf["_>_"](b, a)) and \
-                    bool(le) == (bool(lt) or bool(eq)) and bool(bf["_>=_"](a, b)) == (bool(gt) or bool(eq))
+                lt, gt, le, ge = bf["_<_"](a, b), bf["_>_"](a, b), bf["_<=_"](a, b), bf["_>=_"](a, b)
+                ok = all(isinstance(x, ct.BoolType) for x in (lt, gt, le, ge)) and \
+                    (bool(lt) + bool(eq) + bool(gt) == 1) and bool(lt) == bool(bf["_>_"](b, a)) and \
+                    bool(le) == (bool(lt) or bool(eq)) and bool(ge) == (bool(gt) or bool(eq))
             if not ok:
                 fails.append({"type": label, "a": repr(a), "b": repr(b)})
         if ordered:
@@ -200,8 +220,13 @@ def bounded(rep, tier, seed):
                     fails.append({"type": label, "transitivity": [repr(a), repr(b), repr(c)]})
     ts = [ct.TimestampType(s) for s in ("2009-02-13T23:31:30Z", "2009-02-14T01:31:30+02:00", "2009-02-13T18:31:30-05:00",
                                         "2009-02-13T23:31:31Z", "0001-01-01T00:00:00Z", "9999-12-31T23:59:59Z",
-                                        "2009-02-13T23:31:30.000001Z", "2020-02-29T12:00:00+14:00", "2020-02-28T22:00:00Z")]
+                                        "2009-02-13T23:31:30.000001Z", "2020-02-29T12:00:00+14:00", "2020-02-28T22:00:00Z",
+                                        # adjacent microseconds where binary64 seconds can no longer tell them apart
+                                        "9999-12-31T23:59:59.000001Z", "9999-12-31T23:59:59.000002Z", "9999-12-31T23:59:59.999999Z",
+                                        "2300-01-01T00:00:00.000001Z", "2300-01-01T00:00:00.000002Z", "0001-01-01T00:00:00.000001Z")]
     du = [ct.DurationType(s) for s in ("0s", "1s", "-1s", "1h", "3600s", "60m", "1.5s", "1500ms", "315576000000s", "-315576000000s")]
+    du += [ct.DurationType(datetime.timedelta(seconds=315576000000 - 1, microseconds=m)) for m in (999998, 999999)] + \
+          [ct.DurationType(datetime.timedelta(microseconds=m)) for m in (1, 2, -1)]
     by = [ct.BytesType(b) for b in (b"", b"a", b"b", b"ab", b"\x00", b"\xff", b"a\x00", b"\xc3\xa9")]
     st = [ct.StringType(s) for s in ("", "a", "b", "ab", "é", "\U0001f431", "￿", "Z", "a\U0001f431")]
     coherent(ts, True, "timestamp")
@@ -211,7 +236,8 @@ def bounded(rep, tier, seed):
     # instants: equal instants written with different offsets are equal, and order follows the instant
     for a, b in itertools.product(ts, repeat=2):
         n += 1
-        ia, ib = a.astimezone(datetime.timezone.utc).replace(tzinfo=None), b.astimezone(datetime.timezone.utc).replace(tzinfo=None)
+        # the instant as plain integers (independent of the class's own comparison methods)
+        ia, ib = tuple(a.utctimetuple()[:6]) + (a.microsecond,), tuple(b.utctimetuple()[:6]) + (b.microsecond,)
         if bool(bf["_==_"](a, b)) != (ia == ib) or bool(bf["_<_"](a, b)) != (ia < ib):
             fails.append({"type": "timestamp-instant", "a": repr(a), "b": repr(b)})
     # nested lists / maps of same-typed values
@@ -238,7 +264,26 @@ def bounded(rep, tier, seed):
         o.replay = {"replayed": True, "confirmed": True, "inputs": fails[0], "more": fails[1:4]}
 
 
+def time_comparison_provenance(rep):
+    """E: timestamp and duration relations ARE the library's exact comparisons (datetime compares aware values by instant,
+    timedelta by its integer microseconds - trusted): every comparison dunder and __hash__ of TimestampType / DurationType
+    resolves, through the real MRO, to datetime.datetime / datetime.timedelta.  A repository override is outside the
+    engine's reach (datetime values are opaque): the obligation is then left undecided and the bounded sweep decides."""
+    for cls, base in ((ct.TimestampType, datetime.datetime), (ct.DurationType, datetime.timedelta)):
+        for dn in ("__eq__", "__ne__", "__lt__", "__le__", "__gt__", "__ge__", "__hash__"):
+            owner = next(k for k in cls.__mro__ if dn in k.__dict__)
+            o = rep.add(V.Obl(f"E:time-relation[{cls.__name__}.{dn}]", "E", f"celpy.celtypes:{cls.__name__}",
+                              f"{cls.__name__}.{dn} is {base.__module__}.{base.__name__}.{dn} (exact comparison by instant / by microseconds)"))
+            o.backend = "mro-table"
+            if owner is base:
+                o.status = "discharged"
+            else:
+                o.status = "undecided"
+                o.detail = f"{dn} is defined by {owner.__module__}.{owner.__qualname__}: not symbolically executable (opaque datetime); see comparisons#bounded"
+
+
 def build(rep, tier="quick", seed=0, known=None):
+    time_comparison_provenance(rep)
     cs = scalar_contracts() + list_contracts() + map_contracts()
     run_contracts(cs, rep, known=known)
     order_lemmas(rep)
